@@ -20,7 +20,7 @@ from fractions import Fraction
 from ..astq import strip, strip_casts, calls, call_args, call_object, writes, written_field, norm, literal_value, src
 from ..callgraph import CallGraph
 from ..facts import AnalysisBroken, walk
-from ..microai.interp import Interp, Obj, Vec, Box, Oracle, enumerate_paths, AssertFail, Thrown, Unsupported, UNINIT
+from ..microai.interp import Interp, Obj, Vec, Box, Oracle, enumerate_paths, AssertFail, Thrown, Unsupported, UNINIT, default_obj
 from ..microai.poly import Poly, to_poly
 from ..rules.guards import path_condition, atoms, entails, show
 
@@ -87,9 +87,9 @@ def rule_fixed_stays(chk, prog):
             hooks = {"Avoid::ConnRef::displayRoute": lambda it, n, env, route=route: route,
                      "Avoid::ConnRef::router": lambda it, n, env: Obj("Avoid::Router", {}),
                      "Avoid::Router::debugHandler": lambda it, n, env: None}
-            seg = Obj("Avoid::NudgingShiftSegment", {"connRef": Obj("Avoid::ConnRef", {}), "variable": Obj("Avoid::Variable", {"finalPosition": F}),
-                                                     "indexes": Vec([1, 2], "unsigned long"), "fixed": fixed, "dimension": dim,
-                                                     "minSpaceLimit": lo, "maxSpaceLimit": hi})
+            seg = default_obj(prog, "Avoid::NudgingShiftSegment", {"connRef": Obj("Avoid::ConnRef", {}), "variable": Obj("Avoid::Variable", {"finalPosition": F}),
+                                                                   "indexes": Vec([1, 2], "unsigned long"), "fixed": fixed, "dimension": dim,
+                                                                   "minSpaceLimit": lo, "maxSpaceLimit": hi, "finalSegment": True})
 
             def run(o, seg=seg, hooks=hooks):
                 it = Interp(prog, o, hooks=hooks)
@@ -177,7 +177,7 @@ def rule_fixed_stays(chk, prog):
                         hooks = {"Avoid::ConnRef::displayRoute": lambda it, n, env, route=route: route,
                                  "Avoid::ConnRef::router": lambda it, n, env: Obj("Avoid::Router", {}),
                                  "Avoid::Router::routingOption": lambda it, n, env, v=nudge_final: v}
-                        seg = Obj("Avoid::NudgingShiftSegment", {"connRef": Obj("Avoid::ConnRef", {}), "variable": None, "indexes": Vec([0, 1]),
+                        seg = default_obj(prog, "Avoid::NudgingShiftSegment", {"connRef": Obj("Avoid::ConnRef", {}), "variable": None, "indexes": Vec([0, 1]),
                                                                  "fixed": fixed, "finalSegment": final, "singleConnectedSegment": False,
                                                                  "sBend": zig, "zBend": False, "dimension": 0,
                                                                  "checkpoints": Vec([Obj("Avoid::Point", {"x": 0, "y": 0})] * ncp),
